@@ -549,6 +549,8 @@ CRLFML2 = {"mode": 2, "comments": True, "crlf_tokens": True}
 CRONLY = {"mode": 5, "comments": True, "cr_comments": True}
 CRCOMMENTS = {"mode": 2, "comments": True, "cr_comments": True, "tight": True}
 REGIONS = {"mode": 1, "regions": True, "comments": True}
+REGIONSF = {"mode": 1, "regions": True, "fixed_regions": True}
+REGIONSF2 = {"mode": 1, "regions": True, "regions2": True, "fixed_regions": True, "comments": True}
 REGIONS2 = {"mode": 2, "regions": True, "regions2": True}
 REGIONS3 = {"mode": 1, "regions": True, "regions2": True, "comments": True}
 
@@ -596,7 +598,10 @@ def c05(tier):
 def c06(tier):
     build(("release",))
     c = Check("C06", tier, "model_checking")
-    tasks = program_tasks(tier, Q(tier, "two", "six"), [PLAIN, COMMENTS, DIRECTIVES], alts=Q(tier, (0, 2, 3), (0, 2, 2, 3, 4, 1)), sample_every=Q(tier, 299, 2999))
+    tasks = program_tasks(tier, Q(tier, "two", "six"), [PLAIN, COMMENTS, DIRECTIVES, REGIONSF, REGIONSF2], alts=Q(tier, (0, 2, 3), (0, 2, 2, 3, 4, 1)), sample_every=Q(tier, 299, 2999))
+    # routines with asm bodies (keywords in any case), two layouts of the code around the instruction lines
+    na = Q(tier, 3000, 60000)
+    tasks += split_tasks("asm", {"count": na, "seed": SEED + 1}, na, [], "two", chunks=16, sample_every=Q(tier, 499, 4999))
     # probes of the known finding F8 (spacing after a literal is copied from the input)
     probes = os.path.join(WORK, "c06_probes.ndjson")
     write_ndjson(probes, [
@@ -606,7 +611,7 @@ def c06(tier):
     tasks += texts_tasks(probes, "default", chunks=1, sample_every=1)
     c.explore(tasks, "relayout", ["C06"], sample_cap=Q(tier, 80, 400))
     return c.finish(
-        rule="each generated program x decoration (comments, blank-line groups, directives) is rendered with 3-6 further spacings (one line, random gaps incl. zero-width, every gap a break, CRLF+tabs); "
+        rule="each generated program x decoration (comments, blank-line groups, directives, verbatim regions whose bytes every layout keeps - now and then with a second `off` inside) is rendered with 3-6 further spacings (one line, random gaps incl. zero-width, every gap a break, CRLF+tabs); "
              "IsRelayout (Session.tla) is evaluated by TLC on the scanned pair (same tokens, comment-touching gaps identical, blank-line groups kept) and the outputs must be byte-identical")
 
 
